@@ -240,3 +240,62 @@ Theorem flat_name_injective n (zs zs' : list Z) :
 Proof.
   intros L H. apply append_cancel_l in H. cbn in H. inversion H as [E]. apply join_show_injective; assumption.
 Qed.
+
+Local Open Scope list_scope.
+(* ---------- set functions: union keeps exactly one copy of every value of a ++ b, in order of first occurrence *)
+Lemma num_mem_app x l m : num_mem x (l ++ m)%list = num_mem x l || num_mem x m.
+Proof. unfold num_mem. apply existsb_app. Qed.
+Definition nums_distinct (l : list dval) : Prop :=
+  forall i j x y, nth_error l i = Some (DNum x) -> nth_error l j = Some (DNum y) -> xq_eqb x y = true -> i = j.
+Lemma dedup_nums_spec : forall l acc, all_nums l = true -> all_nums acc = true -> nums_distinct acc ->
+  all_nums (dedup_nums l acc) = true /\ nums_distinct (dedup_nums l acc) /\
+  (forall x, num_mem x (dedup_nums l acc) = num_mem x acc || num_mem x l) /\
+  exists extra, dedup_nums l acc = (acc ++ extra)%list.
+Proof.
+  induction l as [|d l IH]; intros acc Hl Ha Hd.
+  - cbn [dedup_nums]. split; [exact Ha|]. split; [exact Hd|]. split; [intros x; cbn; rewrite orb_false_r; reflexivity|exists []; rewrite app_nil_r; reflexivity].
+  - cbn [all_nums forallb] in Hl. apply andb_true_iff in Hl as [Hd0 Hl]. destruct d as [x| | | | | |]; try discriminate Hd0. cbn [dedup_nums].
+    destruct (num_mem x acc) eqn:M.
+    + destruct (IH acc Hl Ha Hd) as [A [B [C [extra E]]]]. split; [exact A|]. split; [exact B|]. split; [|exists extra; exact E].
+      intros y. rewrite C. cbn [num_mem existsb]. fold (num_mem y l).
+      destruct (xq_eqb y x) eqn:Eyx; [|reflexivity].
+      (* y = x as numbers and x is already in acc *)
+      assert (num_mem y acc = true).
+      { unfold num_mem in *. apply existsb_exists in M as [d [Hin Hd1]]. apply existsb_exists. exists d. split; [exact Hin|].
+        destruct d; try discriminate. clear - Eyx Hd1. destruct y, x, x0; cbn in *; try discriminate; try reflexivity.
+        unfold q_eqb in *. apply Qeq_bool_iff in Eyx. apply Qeq_bool_iff in Hd1. apply Qeq_bool_iff. rewrite Eyx. exact Hd1. }
+      rewrite H. reflexivity.
+    + assert (Ha' : all_nums (acc ++ [DNum x]) = true) by (unfold all_nums; rewrite forallb_app; cbn; rewrite andb_true_r; exact Ha).
+      assert (Hd' : nums_distinct (acc ++ [DNum x])).
+      { intros i j a b Hi Hj Eab.
+        assert (Li : i < List.length (acc ++ [DNum x])) by (apply nth_error_Some; congruence).
+        assert (Lj : j < List.length (acc ++ [DNum x])) by (apply nth_error_Some; congruence).
+        rewrite app_length in Li, Lj. cbn [List.length] in Li, Lj.
+        assert (Notin : forall k c, nth_error acc k = Some (DNum c) -> xq_eqb c x = false /\ xq_eqb x c = false).
+        { intros k c Hk. assert (In (DNum c) acc) by (eapply nth_error_In; exact Hk).
+          assert (F : xq_eqb x c = false).
+          { destruct (xq_eqb x c) eqn:E; [|reflexivity]. exfalso. unfold num_mem in M. rewrite (proj2 (existsb_exists _ _)) in M; [discriminate|]. exists (DNum c). split; [exact H|exact E]. }
+          split; [|exact F]. destruct (xq_eqb c x) eqn:E; [|reflexivity]. exfalso. clear - E F. destruct c, x; cbn in *; try discriminate.
+          unfold q_eqb in *. apply Qeq_bool_iff in E. assert (Qeq_bool q0 q = true) by (apply Qeq_bool_iff; symmetry; exact E). congruence. }
+        destruct (Nat.lt_ge_cases i (List.length acc)) as [Ii|Ii], (Nat.lt_ge_cases j (List.length acc)) as [Ij|Ij].
+        - rewrite nth_error_app1 in Hi, Hj by assumption. exact (Hd i j a b Hi Hj Eab).
+        - rewrite nth_error_app1 in Hi by assumption. rewrite nth_error_app2 in Hj by assumption.
+          replace (j - List.length acc) with 0 in Hj by lia. cbn in Hj. inversion Hj; subst b. destruct (Notin i a Hi) as [F _]. congruence.
+        - rewrite nth_error_app2 in Hi by assumption. rewrite nth_error_app1 in Hj by assumption.
+          replace (i - List.length acc) with 0 in Hi by lia. cbn in Hi. inversion Hi; subst a. destruct (Notin j b Hj) as [_ F]. congruence.
+        - lia. }
+      destruct (IH (acc ++ [DNum x]) Hl Ha' Hd') as [A [B [C [extra E]]]]. split; [exact A|]. split; [exact B|]. split.
+      * intros y. rewrite C, num_mem_app. cbn [num_mem existsb]. rewrite orb_false_r. fold (num_mem y l). rewrite orb_assoc. reflexivity.
+      * exists (DNum x :: extra). rewrite E, <- app_assoc. reflexivity.
+Qed.
+
+Theorem union_is_a_set env a b la lb :
+  ieval env a = Some (DList la) -> ieval env b = Some (DList lb) -> all_nums la = true -> all_nums lb = true ->
+  exists u, ieval env (ISet SUnion a b) = Some (DList u) /\ nums_distinct u /\
+    forall x, num_mem x u = num_mem x la || num_mem x lb.
+Proof.
+  intros Ha Hb Na Nb. cbn [ieval]. rewrite Ha, Hb, Na, Nb. cbn [andb]. eexists. split; [reflexivity|].
+  destruct (dedup_nums_spec (la ++ lb) [] ltac:(unfold all_nums; rewrite forallb_app; fold (all_nums la); fold (all_nums lb); rewrite Na, Nb; reflexivity) eq_refl
+              ltac:(intros i j x y Hi; destruct i; discriminate)) as [_ [D [M _]]].
+  split; [exact D|]. intros x. rewrite M, num_mem_app. reflexivity.
+Qed.
